@@ -62,11 +62,8 @@ func corners() []corner {
 }
 
 func (c corner) class() string {
-	if c.BaseFee.BitLen() > 63 {
+	if c.BaseFee.BitLen() > 63 || c.MinPrice != "" { // the minimum gas price is a floor of the base fee
 		return "base-fee-above-int64"
-	}
-	if c.MinPrice != "" {
-		return "min-gas-price-above-int64"
 	}
 	return maxGasClass(c.MaxGas)
 }
